@@ -80,7 +80,7 @@ func init() {
 		Run: func(s *kernel.Sim) { runC10(s, "C05") },
 	})
 	Register(&Scenario{
-		Name: "c07_withdraw_race", Property: "C07", MaxSteps: 30000, Quick: 300, Thorough: 20000, Race: true,
+		Name: "c07_withdraw_race", Property: "C07", MaxSteps: 30000, Quick: 700, Thorough: 20000, Race: true,
 		Doc:  "two or three concurrent pool_withdraw calls of one wallet (plus keep-alives crediting it), interleaved at the balance read, inside the settlement handler and after it, with settlement failures: cumulative payments never exceed what the wallet earned plus its deposit, and the wallet is empty after a successful withdrawal that nothing followed",
 		Real: worldReal, Stub: worldStub,
 		Run: runC07Race,
@@ -719,7 +719,7 @@ func runC07Race(s *kernel.Sim) {
 	}
 	s.SetYield("op", 3)
 	start := time.Now()
-	nW := 2 + s.Choose("nwithdraw", 2)
+	nW := 2 + s.Choose("nwithdraw", 3)
 	accrue := s.Choose("accrue", 2) == 1
 	var mu sync.Mutex
 	oks := 0
